@@ -142,6 +142,21 @@ def supervise(a) -> int:
     env = dict(os.environ, DLTYPE_VERIF_CHILD="1", DLTYPE_VERIF_HEARTBEAT=hb, DLTYPE_VERIF_IMPL_LINES=lp)
     limit = float(os.environ.get("DLTYPE_VERIF_OP_TIMEOUT", "180"))
     p = subprocess.Popen([sys.executable, os.path.abspath(__file__), *sys.argv[1:]], env=env)
+
+    def _stop(signum, _frame):
+        # the caller gave up (timeout / interrupt): do not leave the child behind
+        try:
+            p.kill()
+        finally:
+            os._exit(2)
+
+    import signal
+
+    for sg in (signal.SIGTERM, signal.SIGINT, signal.SIGHUP):
+        try:
+            signal.signal(sg, _stop)
+        except Exception:  # noqa: BLE001
+            pass
     last, since = None, time.time()
     while True:
         try:
